@@ -130,21 +130,37 @@ def run(ctx):
     ctx.run_proof_gate()
     m = vlib.build_model("C33")
 
+    # ---------------- shapes (one list for both streams)
+    replay_case = (json.load(open(ctx.replay)).get("case") or "") if ctx.replay else None
+    shapes = []          # (id, "S src", tags)
+    if not ctx.replay:
+        rc, out = vlib.sh([h33, "-extra", "shapes", "-n", str(ctx.n(0, 6000)), "-seed", str(ctx.sseed("c33.shapes")),
+                           "-repo", vlib.REPO], timeout=600, env=vlib.elk_env())
+        ids, inputs, obs = vlib.parse_case_lines(out)
+        shapes = [(i, inputs[i], obs[i]) for i in ids]
+        if rc != 0 or len(shapes) < 100:
+            ctx.broke("c33: shape generator failed (rc=%d, %d shapes)" % (rc, len(shapes)), out[-1000:])
+    tags_of = {sid: tags for sid, _, tags in shapes}
+
     # ---------------- c33.static
     stream = "c33.static"
     stats = {"functions": 0, "safe": 0, "exit_unchecked_oneshot_units": 0, "inconclusive_finally_dispatch": 0,
              "origins": set(), "distinct": set()}
     samples = []
+    inconclusive = set()
     corpus = os.path.join(vlib.ROOT, "corpus", "C33.static.txt")
     if ctx.replay:
-        rp = json.load(open(ctx.replay))
         tmp = os.path.join(ctx.workdir, "replay_case.txt")
         with open(tmp, "w") as f:
-            f.write("r0\t%s\n" % (rp.get("case") or ""))
+            f.write("r0\t%s\n" % replay_case)
         runs = [(h29, ["-abort", "-extra", "replay", "-input", tmp, "-repo", vlib.REPO])]
     else:
-        runs = [(h33, ["-extra", "static", "-n", str(ctx.n(220, 100000)), "-seed", str(ctx.sseed(stream)),
-                       "-repo", vlib.REPO, "-input", corpus]),
+        sfile = os.path.join(ctx.workdir, "static_shapes.txt")
+        with open(sfile, "w") as f:
+            f.write(open(corpus).read())
+            for sid, src, tags in shapes:
+                f.write("%s\t%s\t%s\n" % (sid, src, tags))
+        runs = [(h33, ["-extra", "static", "-n", "0", "-repo", vlib.REPO, "-input", sfile]),
                 (h29, ["-abort", "-extra", "export", "-n", str(ctx.n(25, 1500)), "-seed", str(ctx.sseed(stream + ".c29")),
                        "-repo", vlib.REPO, "-input", os.path.join(vlib.ROOT, "corpus", "C29.verify.txt")]
                  + (["-norepo"] if ctx.quick() else []))]
@@ -153,12 +169,18 @@ def run(ctx):
         # the shapes (and replays) gate; the C29 corpus is reported only: the compiler emits bounded
         # internal loops without checks (e.g. the rest-element loop of list patterns), which a
         # path- and value-insensitive validator cannot tell from user loops
-        static_cases(ctx, stream, ids, inputs, obs, exp, stats, samples, gate=(hh == h33 or bool(ctx.replay)))
+        static_cases(ctx, stream, ids, inputs, obs, exp, stats, samples, gate=(hh == h33 or bool(ctx.replay)),
+                     inconclusive=inconclusive if hh == h33 else None)
     nfun = stats["functions"]
     dist = {k: (len(v) if isinstance(v, set) else v) for k, v in stats.items() if k not in ("origins", "distinct")}
     dist["programs"] = len(stats["origins"])
+    dist["grid_shapes"] = len([1 for sid in tags_of if "form=" in tags_of[sid]])
+    dist["shapes_with_inconclusive_function"] = len(inconclusive)
+    for k in ("form", "end", "ctx", "family"):
+        dist["grid_distinct_" + k] = len(set(tagval(t, k) for t in tags_of.values() if tagval(t, k)))
     ctx.stream(stream, nfun, len(stats["distinct"]),
-               "every BytecodeFunction of every non-terminating shape, of main.elk.test (std kernel + repository tests) and of "
+               "every BytecodeFunction of every non-terminating shape (grid: context x loop form x label x ending; covering design "
+               "on every run), of main.elk.test (std kernel + repository tests) and of "
                "generated programs, all compiled WITH AdditionalAbortChecks; verdict of the extracted abort_safe; non-trivial = "
                "distinct functions containing at least one check node", samples, dist)
     if nfun == 0:
@@ -168,51 +190,99 @@ def run(ctx):
 
     # ---------------- c33.dynamic
     stream = "c33.dynamic"
-    if ctx.replay and not (json.load(open(ctx.replay)).get("case") or "").startswith("S "):
+    if ctx.replay and not replay_case.startswith("S "):
         return
+    rng = ctx.rng(stream)
+    delays = [20] if ctx.quick() else [5, 50, 200]
+    jobs = {}            # jid -> (sid, src, tags, delay)
+    must = set()
+
+    def addjob(sid, src, tags, d):
+        jobs["%s@%d" % (sid, d)] = (sid, src, tags, d + rng.below(5))
+
     if ctx.replay:
-        shapes = [("replay", json.load(open(ctx.replay))["case"], "replay gate=true")]
+        addjob("replay", replay_case, "replay gate=true isolate", delays[0])
     else:
-        rc, out = vlib.sh([h33, "-extra", "shapes", "-n", str(ctx.n(70, 100000)), "-seed", str(ctx.sseed(stream)),
-                           "-repo", vlib.REPO], timeout=300, env=vlib.elk_env())
-        ids, inputs, obs = vlib.parse_case_lines(out)
-        shapes = [(i, inputs[i], obs[i]) for i in ids]
-        for j, l in enumerate(open(os.path.join(vlib.ROOT, "corpus", "C33.dynamic.txt")).read().splitlines()):
+        for l in open(os.path.join(vlib.ROOT, "corpus", "C33.dynamic.txt")).read().splitlines():
             p = l.split("\t")
             if len(p) >= 2 and p[1].startswith("S "):
-                shapes.insert(0, ("corpus:" + p[0], p[1], "corpus gate=true"))
-    delays = [20] if ctx.quick() else [5, 50, 200]
-    rng = ctx.rng(stream)
-    jobs = []
-    for sid, src, tags in shapes:
-        for d in delays:
-            jobs.append((sid, src, tags, d + rng.below(5)))
+                addjob("corpus:" + p[0], p[1], "corpus gate=true", delays[0])
+        # every special shape, every shape the validator could not decide (mandatory), and a seeded
+        # sample of the decided ones: each core-ending cell first, then the rest
+        grid = [(sid, src, tags) for sid, src, tags in shapes if "form=" in tags]
+        chosen = [x for x in shapes if "form=" not in x[2]]
+        chosen += [x for x in grid if x[0] in inconclusive]
+        must = set(x[0] for x in grid if x[0] in inconclusive)
+        rest = [x for x in grid if x[0] not in inconclusive]
+        for k in range(len(rest) - 1, 0, -1):
+            j = rng.below(k + 1)
+            rest[k], rest[j] = rest[j], rest[k]
+        chosen += rest[:ctx.n(110, 2500)]
+        for sid, src, tags in chosen:
+            # thorough: a grid shape gets one of the delays (drawn), the special shapes get all of them
+            for d in ([delays[rng.below(len(delays))]] if "form=" in tags else delays):
+                addjob(sid, src, tags, d)
 
-    def one(job):
-        sid, src, tags, d = job
-        fn = os.path.join(ctx.workdir, "dyn_%d.txt" % (abs(hash((sid, d))) % 10**9))
+    def run_batch(batch):
+        """batch = [jid...] with a common delay; returns {jid: outcome} for the programs that got a line"""
+        d = jobs[batch[0]][3]
+        fn = os.path.join(ctx.workdir, "dyn_%d.txt" % (abs(hash(tuple(batch))) % 10**9))
         with open(fn, "w") as f:
-            f.write("x\t%s\n" % src)
+            for jid in batch:
+                f.write("%s\t%s\n" % (jid, jobs[jid][1]))
         rc, out = vlib.sh([h33, "-extra", "dyn", "-input", fn, "-delay", str(d), "-limit", str(LIMIT_MS), "-repo", vlib.REPO],
-                          timeout=60, env=vlib.elk_env())
+                          timeout=60 + 3 * len(batch), env=vlib.elk_env())
         try:
             os.remove(fn)
         except OSError:
             pass
-        res = "no-output rc=%d %s" % (rc, out[-200:].replace("\n", " "))
+        res = {}
         for l in out.splitlines():
             p = l.split("\t")
-            if len(p) >= 3 and p[1].startswith("S "):
-                res = p[2]
-        return job, res
+            if len(p) >= 3 and p[1].startswith("S ") and p[0] in jobs:
+                res[p[0]] = p[2]
+        if not res:
+            res[batch[0]] = "no-output rc=%d %s" % (rc, out[-200:].replace("\n", " "))
+        return res
 
-    results = vlib.parallel_map(one, jobs, workers=6)
-    dist = {}
+    # programs that spawn threads / are expected to block run alone; the others share a process
+    # (start-up dominates the cost).  The harness stops a batch at the first outcome that is not
+    # aborted/rejected, the remainder is re-submitted; such an outcome is then CONFIRMED by a run
+    # of that program alone in a fresh process, and only the confirmed outcome is judged.
+    results = {}
+    pending = list(jobs)
+    rounds = 0
+    while pending and rounds < 60:
+        rounds += 1
+        solo = [[j] for j in pending if "isolate" in jobs[j][2] or "native-no-context" in jobs[j][2]]
+        shared = {}
+        for j in pending:
+            if [j] not in solo:
+                shared.setdefault(jobs[j][3], []).append(j)
+        batches = solo
+        for d, js in sorted(shared.items()):
+            size = max(4, min(24, (len(js) + 5) // 6))
+            batches += [js[k:k + size] for k in range(0, len(js), size)]
+        for res in vlib.parallel_map(run_batch, batches, workers=6):
+            results.update(res)
+        pending = [j for j in pending if j not in results]
+    for j in pending:
+        results[j] = "no-output (never reached)"
+    suspects = [j for j, r in results.items()
+                if not (r.startswith("aborted") or r.startswith("rejected")) and "isolate" not in jobs[j][2]
+                and "native-no-context" not in jobs[j][2]]
+    for res in vlib.parallel_map(run_batch, [[j] for j in suspects], workers=6):
+        results.update(res)
+
+    dist = {"confirmed_alone": len(suspects)}
     times = []
     nogate = {}
     distinct = set()
     samples = []
-    for (sid, src, tags, d), res in results:
+    verdict_of = {}
+    for jid in jobs:
+        sid, src, tags, d = jobs[jid]
+        res = results[jid]
         outcome = res.split(" cancel_to_return_ms")[0]
         cls = outcome.split()[0]
         mt = re.search(r"cancel_to_return_ms=(\d+)", res)
@@ -222,6 +292,7 @@ def run(ctx):
             continue
         dist[cls] = dist.get(cls, 0) + 1
         distinct.add(src)
+        verdict_of.setdefault(sid, cls)
         if cls == "aborted":
             if mt:
                 times.append(int(mt.group(1)))
@@ -232,15 +303,27 @@ def run(ctx):
             continue
         ctxk = sid.split("/")[0] if "/" in sid else sid
         cont = ":continue" if "continue" in sid else ""
-        ctx.fail("dynamic:%s:%s%s" % (cls, ctxk, cont),
+        key = "dynamic:%s:%s%s" % (cls, ctxk, cont)
+        if tagval(tags, "form"):
+            key = "dynamic:%s:%s:%s" % (cls, tagval(tags, "form"), tagval(tags, "cls"))
+        ctx.fail(key,
                  "shape %s, cancelled after %d ms: %s (expected Std::ExecutionAbortedError within %d ms)" % (sid, d, res, LIMIT_MS),
                  stream=stream, case=src, impl=res, model="aborted",
                  oracle="a cancelled program stops with ExecutionAbortedError")
+    if dist.get("rejected", 0) * 20 > len(jobs):
+        ctx.broke("c33.dynamic: %d of %d shapes no longer compile" % (dist["rejected"], len(jobs)))
+    missing = sorted(x for x in must if verdict_of.get(x, "rejected") == "rejected")
+    if missing:
+        ctx.broke("c33.dynamic: %d shapes the validator could not decide got no dynamic verdict" % len(missing), ", ".join(missing[:20]))
+    dist["statically_inconclusive_shapes_gated_here"] = len(must) - len(missing)
     dist["cancel_to_return_ms_max"] = max(times) if times else None
     dist["cancel_to_return_ms_over_1000"] = len([t for t in times if t > 1000])
     dist["delays_ms"] = delays
-    ctx.stream(stream, len([1 for (j, r) in results if "gate=true" in j[2]]), len(distinct),
-               "each non-terminating shape compiled with abort checks and run in-process (one subprocess per run) on a fresh "
-               "vm.Thread; context cancelled after the delay; outcome class + cancel-to-return time; non-trivial = distinct sources",
+    ngated = len([1 for j in jobs if "gate=true" in jobs[j][2]])
+    ctx.stream(stream, ngated, len(distinct),
+               "non-terminating shapes (all special shapes, EVERY grid shape with a statically inconclusive function, a seeded "
+               "sample of the others) compiled with abort checks and run in-process on a fresh vm.Thread; context cancelled after "
+               "the delay; outcome class + cancel-to-return time; programs share a process, every outcome other than aborted is "
+               "confirmed by a run alone in a fresh process; non-trivial = distinct sources",
                samples, dist)
     ctx.extra["blocking_without_context"] = nogate
